@@ -42,6 +42,9 @@ CHECKS = {
  'C03': ("explicit-state exploration of optimizer update histories on the real optimizer (history tree, bit-exact rank/slot differentials, reference recurrences)",
          "Every gradient sequence over an 11-value alphabet up to the depth bound x every non-decreasing step-number sequence x 32 hyper-parameter settings x 3 tensor ranks is executed on the real create->validate->update API; each reached parameter is compared with the documented recurrence, across ranks (bit-exact) and across slot interleavings (bit-exact); 2048-step run-length histories for slow numeric drift.",
          "Trusts the 5 scalar reference recurrences (refmodel/optim.rs) and IEEE f32/f64 of the host; gradients outside the alphabet and depth > bound are not covered except through the run-length histories.", "4 C03", True),
+ 'C05': ("stateless model checking of schedules: choice-point DFS over a scheduler model of rayon (thread counts x steal patterns x leaf interleavings, deviation-bounded by regions) running the unchanged library, bound to real rayon by result equality and partition inclusion",
+         "The unchanged library is compiled against a model of rayon 1.10's adaptive splitter and work stealing; every schedule with <= 1 (thorough 2) deviating parallel regions per run is executed for pool sizes 1,2,3,4,8 (16,64) on a driver with every layer kind, batch sizes 2/3/5, 65/130 evaluation inputs; losses, metrics, final weights and predict_batch outputs must be bit-identical to the canonical run. The model is validated against the real pool: identical results for 5-7 pool sizes in two calling contexts, and every leaf partition observed under real rayon is one the model generates.",
+         "Leaf granularity (sound without interior mutability: source scan recorded in the evidence); flat_map inner iterators sequential; memory-ordering effects inside rayon are outside the model.", "4 C05", True),
  'C06': ("exhaustive enumeration of (prediction,target) tuples over boundary-including alphabets against the documented formulas, rank/clamp differentials, dual-number derivative",
          "All tuples of up to 3 (prediction,target) pairs over the per-objective in-domain alphabets (including exact 0 and 1), both ranks, all clamps: loss and gradient against the documented formulas, clamped = clamp(unclamped) bit-exact, 3-D = vector bit-exact, gradient = derivative of the reference loss for AE/MSE/BCE/KL.",
          "Trusts the 7 reference formulas (refmodel/objective.rs); values outside the alphabets are covered only through the structural (rank/clamp) differentials.", "4 C06", False),
